@@ -18,8 +18,14 @@
                       channel sits on a device channel of the same type/basis/addressing;
      and switch_register to registers with the same qubit ids (same / moved coordinates, other order)
      or a superset -> identical timeline, same calls.
-  4. failures are shrunk (ops, then the edit list down to single fields) and keyed
-     {"clause": ..., "param": <the differing parameter>}.
+  4. failures are shrunk (ops, then the edit list down to single fields, then the difference between
+     each declared channel's old and new device channel) and keyed {"clause": ..., "param": ...}: `param`
+     names the *timing* parameters (Switch.timingFields; limit-only parameters cannot matter by
+     Properties/C18.lean timing_congr) in which a declared channel's old and new device channel differ —
+     the search may have matched another channel than the edited one.  `eom_samples_close` re-evaluates
+     the code's own post-replay criterion, `cause` tells a renamed DMM channel from a parameter difference.
+  5. corpus/C18: the reproducers of the findings, with the instruction times that the Lean theorems
+     `f5_values` / `dmm_rename_values` state for the model (`expect`), compared with the real run.
 """
 from __future__ import annotations
 
@@ -27,7 +33,6 @@ import collections
 import copy
 import dataclasses
 import json
-import os
 import random
 import re
 import warnings
